@@ -306,12 +306,17 @@ pub fn parse_file_internal(context: &ParseContext) -> Result<(), Error> {
     Ok(())
 }
 
-/// Deepest nesting of parentheses / longest run of unary operators handed to the grammar,
-/// which is recursive and would overflow the stack on absurdly nested input
+/// Deepest nesting (parentheses and unary operators) and most binary operators one operand may
+/// hold: the grammar, the evaluator and the expression tree itself are recursive and would
+/// overflow the stack on absurdly nested or absurdly long expressions
 const MAX_NESTING: usize = 200;
+const MAX_OPERATORS: usize = 500;
 
 fn nested_too_deeply(line: &str) -> bool {
-    let (mut depth, mut run, mut in_string) = (0usize, 0usize, false);
+    // parentheses + unary operators and binary operator characters seen in the current
+    // operand, open parentheses, whether the last thing seen was (the end of) a value
+    let (mut nesting, mut operators, mut depth) = (0usize, 0usize, 0usize);
+    let (mut in_string, mut after_value) = (false, false);
     let chars: Vec<char> = line.chars().collect();
     let mut i = 0;
     while i < chars.len() {
@@ -320,11 +325,14 @@ fn nested_too_deeply(line: &str) -> bool {
         // a character literal such as ';' or '"' is neither a comment nor a string
         if !in_string && c == '\'' && i + 1 < chars.len() && chars[i + 1] == '\'' {
             i += 2;
-            run = 0;
+            after_value = true;
             continue;
         }
         match c {
-            '"' => in_string = !in_string,
+            '"' => {
+                in_string = !in_string;
+                after_value = true;
+            }
             _ if in_string => {}
             ';' => break,
             // `//` comments run to the end of the line, `/* */` comments to their closer
@@ -335,22 +343,35 @@ fn nested_too_deeply(line: &str) -> bool {
                     i += 1;
                 }
                 i += 2;
-                run = 0;
             }
             '(' => {
                 depth += 1;
-                if depth > MAX_NESTING {
-                    return true;
-                }
+                nesting += 1;
+                after_value = false;
             }
-            ')' => depth = depth.saturating_sub(1),
-            '-' | '!' | '~' => {
-                run += 1;
-                if run > MAX_NESTING {
-                    return true;
-                }
+            ')' => {
+                depth = depth.saturating_sub(1);
+                after_value = true;
             }
-            _ => run = 0,
+            // the next operand of a list starts afresh
+            ',' if depth == 0 => {
+                nesting = 0;
+                operators = 0;
+                after_value = false;
+            }
+            '-' | '!' | '~' | '+' | '*' | '/' | '%' | '<' | '>' | '=' | '&' | '|' | '^' => {
+                if after_value {
+                    operators += 1;
+                } else {
+                    nesting += 1;
+                }
+                after_value = false;
+            }
+            c if c.is_whitespace() => {}
+            _ => after_value = true,
+        }
+        if nesting > MAX_NESTING || operators > MAX_OPERATORS {
+            return true;
         }
     }
     false
